@@ -235,8 +235,13 @@ def check(prog, run):
     if not okc:
         run.report(r, "%s:Lexer._read_escaped_unicode:conversion" % lexrules.LEXER, eu.where(), "\\uXXXX is not decoded with chr(int(text, 16))")
 
+    check_block_string_classes(prog, run, "B1", lexer)
+    check_block_string_decoded(prog, run, "B2", lexer)
+
+
+def check_block_string_classes(prog, run, rule_id, lexer):
     # ---- B1 block string character classes
-    r = run.rule("B1", "parse_block_string and the lexer's string readers use no Unicode-aware str method "
+    r = run.rule(rule_id, "parse_block_string and the lexer's string readers use no Unicode-aware str method "
                        "(splitlines, argument-less strip/lstrip/split, isspace, ...) on source text: only LF/CR/CRLF end "
                        "lines and only space/tab are blank", 2)
     pbs = prog.get_func(lexrules.STRUTILS, "parse_block_string")
@@ -266,3 +271,31 @@ def check(prog, run):
                 if not ok:
                     run.report(r, "%s:parse_block_string:line-separator" % lexrules.STRUTILS, pbs.where(n),
                                "the line separator %r does not split exactly at LF, CR and CRLF" % pat)
+
+
+def check_block_string_decoded(prog, run, rule_id, lexer):
+    """B2: the value of every BlockString token is parse_block_string(<raw content>) — on every path."""
+    from .. import boolx
+    r = run.rule(rule_id, "every path of Lexer._read_block_string that builds a BlockString token has passed the raw content through "
+                          "parse_block_string (common-indent and blank-line stripping, CR / CRLF / LF line splitting): no fast path "
+                          "hands the raw text to the token", 1)
+    m = lexer.methods.get("_read_block_string")
+    if m is None:
+        raise AnalysisError("%s: Lexer._read_block_string not found" % rule_id)
+    run.looked_at(m)
+    try:
+        _ev, exits = boolx.walk_under(m.node, lambda t: None)
+    except ValueError as e:
+        raise AnalysisError("%s: %s" % (rule_id, e))
+    rets = [(st, env) for k, st, env in exits if k == "return" and st.value is not None
+            and any(isinstance(x, ast.Call) and isinstance(x.func, ast.Name) and x.func.id == "BlockString" for x in ast.walk(st.value))]
+    r.instance("_read_block_string: %d paths return a BlockString token" % len(rets))
+    if not rets:
+        raise AnalysisError("%s: no path of _read_block_string returns a BlockString token" % rule_id)
+    for st, env in rets:
+        if not any(isinstance(c.func, ast.Name) and c.func.id == "parse_block_string" for c in env.get(boolx.CALLS, ())):
+            cond = ", ".join("%s=%s" % kv for kv in sorted(env.items()) if kv[0] not in (boolx.CALLS, boolx.STMTS))
+            run.report(r, "%s:Lexer._read_block_string:raw-value" % lexrules.LEXER, m.where(st),
+                       "a BlockString token can be built without parse_block_string (when %s): its value keeps the raw indentation, "
+                       "blank lines and CR line ends" % (cond or "always"))
+            break
